@@ -67,8 +67,23 @@ def apply(c):
         ('dns/character_string.rs', "impl<'a> CharacterString<'a> {", "r.bytes() == self.bytes()"),
     ]:
         unmark(c, rel, ctx, 'into_owned')
-        c.mark(rel, ctx, 'into_owned', '#[verifier::external_body]')
-        c.contract(rel, ctx, 'into_owned', "        ensures %s, // @C16:owned-copy-has-the-same-view (assumed: iterator / Into based body)\n" % ens)
+        if 'Name' in ctx:
+            c.collect_loop(rel, ctx, 'into_owned', "Label<'b>", """
+                invariant vx_it.seq() == vx_l0, vx_out@.len() == vx_it.index@, vx_it.index@ <= vx_l0.len(),
+                    forall|j: int| 0 <= j < vx_out@.len() ==> (#[trigger] vx_out@[j]).lview() == vx_l0[j].lview(),
+""")
+            c.contract(rel, ctx, 'into_owned', "        ensures %s, // @C16:owned-copy-has-the-same-view\n" % ens,
+                       pre_body="\n        let ghost vx_l0 = self.labels@;\n        let ghost vx_lv0 = self.lv();\n")
+            c.bind_tail(rel, ctx, 'into_owned', """
+        proof {
+            lemma_labels_view_len(vx_l0);
+            lemma_labels_view_len(vx_r.labels@);
+            assert(vx_r.lv() =~= vx_lv0);
+        }
+""")
+            continue
+        c.contract(rel, ctx, 'into_owned', "        ensures %s, // @C16:owned-copy-has-the-same-view\n" % ens,
+                   pre_body="\n        broadcast use crate::vx::vx_axioms;\n")
 
     # hand-written types
     unmark(c, 'dns/rdata/null.rs', "impl<'a> NULL<'a> {", 'into_owned')
@@ -82,15 +97,37 @@ def apply(c):
     unmark(c, 'dns/rdata/ipseckey.rs', "impl<'a> IPSECKEY<'a> {", 'into_owned')
     c.contract('dns/rdata/ipseckey.rs', "impl<'a> IPSECKEY<'a> {", 'into_owned',
                "        ensures r.precedence == self.precedence, r.algorithm == self.algorithm, r.public_key@ == self.public_key@, r.wf_enc() == self.wf_enc(), // @C16:owned-copy-serialises-identically\n")
+    # TXT / OPT / NSEC: Vec-of-elements bodies, verified through R15
+    c.wrap('dns/rdata/opt.rs', "impl<'a> OPTCode<'a> {")
+    c.contract('dns/rdata/opt.rs', "impl<'a> OPTCode<'a> {", 'into_owned', "        ensures r.code == self.code, r.data@ == self.data@, // @C16:owned-copy-has-the-same-fields\n",
+               pre_body="\n        broadcast use crate::vx::vx_axioms;\n")
+    for rel, ctx, ens, elem, src, view, elem_eq, pre in [
+        ('dns/rdata/txt.rs', "impl<'a> TXT<'a> {", "r.items() == self.items(), r.sz() == self.sz(), r.wf_enc() == self.wf_enc()",
+         "CharacterString<'b>", 'self.strings@', 'txt_items', '(#[trigger] vx_out@[j]).bytes() == vx_l0[j].bytes()', ''),
+        ('dns/rdata/opt.rs', "impl<'a> OPT<'a> {", "opt_items(r.opt_codes@) == opt_items(self.opt_codes@), r.udp_packet_size == self.udp_packet_size, r.version == self.version, r.wf_enc() == self.wf_enc()",
+         "OPTCode<'b>", 'self.opt_codes@', 'opt_items', '(#[trigger] vx_out@[j]).code == vx_l0[j].code && vx_out@[j].data@ == vx_l0[j].data@', ''),
+        ('dns/rdata/nsec.rs', "impl<'a> NSEC<'a> {", "r.next_name.lv() == self.next_name.lv(), nsec_items(r.type_bit_maps@) == nsec_items(self.type_bit_maps@), r.wf_enc() == self.wf_enc()",
+         "TypeBitMap<'b>", 'self.type_bit_maps@', 'nsec_items', '(#[trigger] vx_out@[j]).window_block == vx_l0[j].window_block && vx_out@[j].bitmap@ == vx_l0[j].bitmap@',
+         'broadcast use crate::vx::vx_axioms;'),
+    ]:
+        unmark(c, rel, ctx, 'into_owned')
+        c.collect_loop(rel, ctx, 'into_owned', elem, """
+                invariant vx_it.seq() == vx_l0, vx_out@.len() == vx_it.index@, vx_it.index@ <= vx_l0.len(),
+                    forall|j: int| 0 <= j < vx_out@.len() ==> %s,
+""" % elem_eq, body_post=(' ' + pre if False else ''))
+        c.contract(rel, ctx, 'into_owned', "        ensures %s, // @C16:owned-copy-serialises-identically\n" % ens,
+                   pre_body="\n        %s\n        let ghost vx_l0 = %s;\n        let ghost vx_v0 = %s(%s);\n" % (pre, src, view, src))
+        field = src.split('.')[1].rstrip('@')
+        c.bind_tail(rel, ctx, 'into_owned', """
+        proof { assert(%s(vx_r.%s@) =~= vx_v0); }
+""" % (view, field))
+    # SVCB: BTreeMap based body, stays assumed
     for rel, ctx, ens in [
-        ('dns/rdata/txt.rs', "impl<'a> TXT<'a> {", "r.items() == self.items(), r.sz() == self.sz(), r.wf_enc() == self.wf_enc()"),
-        ('dns/rdata/opt.rs', "impl<'a> OPT<'a> {", "opt_items(r.opt_codes@) == opt_items(self.opt_codes@), r.udp_packet_size == self.udp_packet_size, r.version == self.version, r.wf_enc() == self.wf_enc()"),
-        ('dns/rdata/nsec.rs', "impl<'a> NSEC<'a> {", "r.next_name.lv() == self.next_name.lv(), nsec_items(r.type_bit_maps@) == nsec_items(self.type_bit_maps@), r.wf_enc() == self.wf_enc()"),
         ('dns/rdata/svcb.rs', "impl<'a> SVCB<'a> {", "r.prio() == self.prio(), r.tgt() == self.tgt(), r.wf_enc() == self.wf_enc()"),
     ]:
         unmark(c, rel, ctx, 'into_owned')
         c.mark(rel, ctx, 'into_owned', '#[verifier::external_body]')
-        c.contract(rel, ctx, 'into_owned', "        ensures %s, // @C16:owned-copy-serialises-identically (assumed: iterator based body)\n" % ens)
+        c.contract(rel, ctx, 'into_owned', "        ensures %s, // @C16:owned-copy-serialises-identically (assumed: BTreeMap iterator based body)\n" % ens)
     # rr_wrapper! and rdata_enum!
     rel = 'dns/rdata/macros.rs'
     c.sub(rel, "            #[verifier::external_body]\n            pub fn into_owned<'b>(self) -> $t<'b> {", "            pub fn into_owned<'b>(self) -> (r: $t<'b>)\n                ensures r.wf_enc() == self.wf_enc(), // @C16:owned-copy-serialises-identically\n            {")
